@@ -7,6 +7,8 @@
 //	modup.go   BasisExtender.ModUpQtoP/PtoQ, ModDownQPtoQ[NTT]/QPtoP: every integer of tiny chains; boundary alphabets, all (levelQ,levelP)
 //	decomp.go  Decomposer.DecomposeAndSplit, Evaluator.DecomposeNTT/DecomposeSingleNTT, MaskVec, and the recombination of
 //	           the digits through Evaluator.GadgetProductLazy on a noise-free gadget ciphertext
+//	gadgetdigits.go  the digits GadgetProduct[Lazy] / GadgetProductHoisted[Lazy] actually use (selector gadget ciphertexts), keys at
+//	           every LevelP in -1..max under 0..3 auxiliary primes and at LevelQ below the maximum, base 2^w in {0, small, large}
 //	extend.go  ExtendBasisSmallNormAndCenter (ringqp) / ExtendBasisSmallNormAndCenterNTTMontgomery (rlwe)
 package main
 
@@ -127,6 +129,14 @@ func scenarios(tier string) []engine.Scenario {
 					}
 					us = append(us, gadgetRecombineScenario(ch, nQ, nP))
 				}
+			}
+			// the digits the gadget products actually use, keys strictly below the parameters' maximum levels
+			if (u.n == 16 && !u.ci) || thorough {
+				for nP := 0; nP <= len(ch.P); nP++ {
+					us = append(us, gadgetDigitsScenario(ch, nP, thorough))
+				}
+			} else if u.classes != nil && ch.name == u.classes[0] {
+				us = append(us, gadgetDigitsScenario(ch, 2, thorough))
 			}
 			// state carried by one Evaluator / its ShallowCopy between calls
 			if (ch.name == "mixed" && u.n == 16 && !u.ci) || (ch.name == "ratios" && u.n != 16) || thorough {
@@ -262,7 +272,18 @@ func main() {
 			}
 			for nP := 0; nP <= 3; nP++ {
 				e = append(e, fmt.Sprintf("decomposer-nP=%d", nP))
+				for lp := -1; lp < nP; lp++ {
+					e = append(e, fmt.Sprintf("gadget-digits-key=nP=%d/keyLevelP=%d", nP, lp))
+				}
 			}
+			for _, en := range gdEntries {
+				e = append(e, "gadget-digits-entry="+en)
+			}
+			for _, b := range gdBase2(tier == "thorough") {
+				e = append(e, fmt.Sprintf("gadget-digits-base2=%d", b))
+			}
+			e = append(e, "gadget-digits-keyLevelQ=below-max", "gadget-digits-keyLevelQ=max", "gadget-digits-path=base2", "gadget-digits-path=rns-multipleP",
+				"gadget-digits-path=rns-singleP-or-noP", "gadget-digits-hoisted-base2=error")
 			return e
 		},
 	})
